@@ -298,12 +298,20 @@ func (mbox *MailboxView) Fetch(w *imapserver.FetchWriter, numSet imap.NumSet, op
 			return
 		}
 
+		// The client hasn't been told about this message yet (its EXISTS
+		// update is still queued): it has no sequence number in the client's
+		// view, so it can't be part of a FETCH response
+		clientSeqNum := mbox.tracker.EncodeSeqNum(seqNum)
+		if clientSeqNum == 0 {
+			return
+		}
+
 		if markSeen {
 			msg.flags[canonicalFlag(imap.FlagSeen)] = struct{}{}
 			mbox.Mailbox.tracker.QueueMessageFlags(seqNum, msg.uid, msg.flagList(), nil)
 		}
 
-		respWriter := w.CreateMessage(mbox.tracker.EncodeSeqNum(seqNum))
+		respWriter := w.CreateMessage(clientSeqNum)
 		err = msg.fetch(respWriter, options)
 	})
 	return err
